@@ -8,6 +8,7 @@ cd /verif
 for d in seeded/*/; do
   id=$(basename $d); prop=${id%%-*}
   [ -n "${ONLY:-}" ] && [[ "$id" != $ONLY* ]] && continue
+  [ -n "${MATCH:-}" ] && [[ ! "$id" =~ $MATCH ]] && continue
   git -C $WT checkout -q -- . ; git -C $WT apply /verif/${d}patch.diff || { echo "$id patch does not apply"; continue; }
   PDV_REPO=$WT PDV_REPLAY_DIR=/tmp/wt/seed_replays ./check $prop --tier quick --no-evidence > /tmp/wt/seed_$id.log 2>&1; rc=$?
   python3 - "$d" "$rc" "/tmp/wt/seed_$id.log" <<'PY'
